@@ -69,6 +69,24 @@ CHECKS = {
             'Inputs on which CPython\'s own incremental decoders are chunk-dependent are discarded (counted). pty children '
             'only with ASCII-compatible codecs (spawn encodes argv with the instance encoding).',
             'DESIGN.md 3/C07'),
+    'C08': ('E3 recording peers on all four transports (vf/engines/dialogue.py)',
+            'Hypothesis-generated send-family histories (all byte values, non-ASCII text, payloads up to 256 KB, control '
+            'characters) against a recording raw-mode pty child / Popen child / socket peer; byte-exact comparison with an '
+            'independent stateful-encoder model; return values',
+            'What the peer really received (its own recording) is compared byte for byte with a model of the documented '
+            'encoding rules, over generated histories on pty, fdspawn, SocketSpawn and PopenSpawn, in bytes and unicode mode.',
+            'Read triggers and the end marker are written directly by the harness and removed from the recording. '
+            'delaybeforesend=None.',
+            'DESIGN.md 3/C08'),
+    'C11': ('E3 recording peers + recording log objects',
+            'the C08 history runner with recording log files in all 8 combinations; transcript oracle (read log, send '
+            'log, merged log in operation order, flush after every write, string type per mode); interact() sessions '
+            'with logs via the C15 harness',
+            'Generated interleavings of reads and sends on all four transports with every combination of the three log '
+            'attributes; the logs must equal the model transcript exactly, be flushed after each write and carry the '
+            'string type of the mode.',
+            'The harness serialises operations, so the merge order is known.',
+            'DESIGN.md 3/C11'),
     'C05': ('E2 kernel objects + interposed syscalls + virtual clock; E3 real children',
             'Hypothesis-generated arrival schedules x timeout values x entry points x transports on real pty/pipe/'
             'socket objects with interposed select/poll/read/waitpid/recv and a virtual clock; exact deadline '
@@ -157,8 +175,8 @@ def main():
              'kind_free_text': 'real pty/pipe/socketpair objects; select/poll/os.read/os.waitpid/os.kill/time/socket.recv '
                                'interposed from the harness by replacing module attributes; virtual clock; peer actions '
                                'fired between reader syscalls; detection of waits that can never end'},
-            {'name': 'E3', 'path': 'vf/engines/peers.py, peers/rawpeer.py, peers/probe.py',
-             'serves_properties': ['C04', 'C05', 'C06', 'C07', 'C13'],
+            {'name': 'E3', 'path': 'vf/engines/peers.py, vf/engines/dialogue.py, peers/rawpeer.py, peers/probe.py',
+             'serves_properties': ['C04', 'C05', 'C06', 'C07', 'C08', 'C11', 'C13'],
              'kind_free_text': 'real peers: scripted pty/Popen children recording what they receive, pre-filled '
                                'pipes/socketpairs, recording log files'},
             {'name': 'E4', 'path': 'vf/engines/screenmodel.py', 'serves_properties': ['C19'],
